@@ -88,6 +88,8 @@ type Obs struct {
 	Pairs [][2]int `json:"pairs,omitempty"`
 	Text  string   `json:"text,omitempty"`
 	UIDV  int      `json:"uidv,omitempty"` // UIDVALIDITY announced with APPENDUID/COPYUID
+	// SetLens: number of UIDs in the source and destination set of COPYUID (they must be equal)
+	SetLens [2]int `json:"set_lens,omitempty"`
 }
 
 type Row struct {
@@ -338,6 +340,22 @@ func uidSet(u []int) string {
 	return strings.Join(s, ",")
 }
 
+// CopyPairs parses COPYUID (tagged or untagged): position-wise pairs, the UIDVALIDITY and the sizes of the two sets.
+func CopyPairs(r imapc.Result) ([][2]int, int, [2]int) {
+	var lens [2]int
+	texts := []string{r.Text}
+	for _, l := range r.Untagged {
+		texts = append(texts, l.Text)
+	}
+	for _, t := range texts {
+		if m := reCopyUID.FindStringSubmatch(t); m != nil {
+			lens = [2]int{len(ExpandSet(m[2])), len(ExpandSet(m[3]))}
+		}
+	}
+	p, v := copyPairs(r)
+	return p, v, lens
+}
+
 func copyPairs(r imapc.Result) ([][2]int, int) {
 	texts := []string{r.Text}
 	for _, l := range r.Untagged {
@@ -453,7 +471,7 @@ func (w *World) Do(o Op) (Obs, error) {
 			return ob, err
 		}
 		if ob.Class == "ok" {
-			ob.Pairs, ob.UIDV = copyPairs(r)
+			ob.Pairs, ob.UIDV, ob.SetLens = CopyPairs(r)
 		}
 		// leave the selected state through a read-only selection (CLOSE then expunges nothing)
 		if r2, err := c.Cmd("EXAMINE " + imapc.Quote(o.Name)); err != nil || r2.Status != "OK" {
